@@ -1281,6 +1281,23 @@ impl defmt::Format for TLVSequenceIter<'_> {
     }
 }
 
+/// Verification hooks (feature `verif` only): read-only access to crate-private items.
+#[cfg(feature = "verif")]
+impl<'a> TLVElement<'a> {
+    /// `TLVSequence::container_len` of the wrapped slice (the length reported for the element).
+    pub fn verif_container_len(&self) -> Result<usize, Error> {
+        self.0.container_len()
+    }
+}
+
+#[cfg(feature = "verif")]
+impl<'a> TLVSequence<'a> {
+    /// The wrapped byte slice.
+    pub fn verif_raw(&self) -> &'a [u8] {
+        self.0
+    }
+}
+
 #[cfg(test)]
 mod tests {
     use core::{f32, f64};
